@@ -803,6 +803,14 @@ func (f *FuncFacts) Accepts() []*Guard {
 			if decided {
 				ri = &retInfo{ins: ri.ins, blk: ri.blk, kind: retAccept}
 			}
+			// `return cond, nil` is `if cond { return true, nil }; return false, nil`: one exit per
+			// truth value, under the condition when it is a single conjunction
+			if !decided && ri.kind == retAccept {
+				if split := f.boolExits(ri, atoms, vals); split != nil {
+					out = append(out, split...)
+					continue
+				}
+			}
 		}
 		switch ri.kind {
 		case retForward:
@@ -1179,4 +1187,56 @@ func (f *FuncFacts) retCode(ri *retInfo) string {
 		return "→" + f.c.term(ri.val)
 	}
 	return f.c.term(ri.val)
+}
+
+// boolExits splits an accepting return whose only non-constant boolean result is computed in place
+// into the exit that hands back true and the exit that hands back false.
+func (f *FuncFacts) boolExits(ri *retInfo, atoms []string, vals []string) []*Guard {
+	idx, vi := -1, 0
+	var bv ssa.Value
+	for i, v := range ri.ins.Results {
+		if f.mode == rejErr && i == len(ri.ins.Results)-1 {
+			continue
+		}
+		u := unspill(v, ri.blk)
+		if b, ok := u.Type().Underlying().(*types.Basic); ok && b.Kind() == types.Bool {
+			if _, isConst := u.(*ssa.Const); !isConst {
+				if idx >= 0 {
+					return nil
+				}
+				idx, bv = vi, u
+			}
+		}
+		vi++
+	}
+	if idx < 0 {
+		return nil
+	}
+	switch bv.(type) {
+	case *ssa.BinOp, *ssa.UnOp, *ssa.Phi:
+	default:
+		return nil // a call result or a loaded flag is a value, not a decision taken here
+	}
+	var out []*Guard
+	for _, want := range []bool{true, false} {
+		ps, ok := f.condPaths(bv, want, false, 0)
+		if !ok || len(ps) == 0 {
+			return nil
+		}
+		as := append([]string{}, atoms...)
+		if len(as) == 1 && as[0] == "always" {
+			as = nil
+		}
+		if len(ps) == 1 {
+			as = append(as, ps[0]...)
+		}
+		as = simplifyAtoms(as)
+		if len(as) == 0 {
+			as = []string{"always"}
+		}
+		vs := append([]string{}, vals...)
+		vs[idx] = fmt.Sprint(want)
+		out = append(out, &Guard{Fn: funcName(f.fn), Atoms: as, Code: "accept <- (" + strings.Join(vs, ", ") + ")", Pos: f.retPos(ri), blk: ri.blk})
+	}
+	return out
 }
